@@ -1,16 +1,25 @@
 (** C05 — non-vacuity: the model runs on literals, and every hypothesis of the property theorems
     ([reach], index bounds, [is_lookup], a returning [step], [chain], [class_card], [mreach]) has a
     concrete instance. *)
-From Coq Require Import List Arith Bool Lia.
+From Coq Require Import List Arith NArith Bool Lia.
 From RlibV Require Import C05.Model C05.Spec C05.Corr C05.Properties.
 Import ListNotations.
 
+Definition s_any : dsu := mk [1;1;3;3] [1;2;1;2].
 Example ex_un : un (new 4) 0 1 = Ok (mk [1;1;2;3] [1;2;1;1], true).
 Proof. reflexivity. Qed.
 Example ex_reset_grow : reset (mk [1;1] [1;2]) 3 = Ok (new 3).
 Proof. reflexivity. Qed.
 Example ex_reset_shrink : reset (mk [1;1;2;3] [1;2;1;1]) 2 = Ok (new 2).
 Proof. reflexivity. Qed.
+(** a reset that cannot get its buffer (usize::MAX, 2^60): it panics, the value is untouched; 2^60 - 1 would be granted *)
+Example ex_reset_refused : step s_any (Reset 18446744073709551615%N) = Panic /\
+                           step s_any (Reset 1152921504606846976%N) = Panic /\
+                           panic_state s_any (Reset 1152921504606846976%N) = s_any /\
+                           alloc_overflow 1152921504606846975%N = false.
+Proof. repeat split; reflexivity. Qed.
+Example ex_reset_refused_hyp : (9223372036854775807 < 1152921504606846976 * 8)%N /\ (3 * 8 <= 9223372036854775807)%N.
+Proof. split; lia. Qed.
 Example ex_panic : par (new 3) 3 = Panic.
 Proof. reflexivity. Qed.
 Example ex_panic_empty : par (new 0) 0 = Panic.
@@ -31,7 +40,7 @@ Qed.
 Example ex_reach_reset : reach 2 [(1,0)] (mk [0;0] [2;1]).
 Proof.
   apply (reach_step 2 [] (new 2) (Un 1 0) _ (RB true)); [|reflexivity].
-  apply (reach_step 4 es3 s3 (Reset 2) _ RU); [exact ex_reach|reflexivity].
+  apply (reach_step 4 es3 s3 (Reset 2%N) _ RU); [exact ex_reach|reflexivity].
 Qed.
 
 Example ex_lookup_step : is_lookup (Par 0) = true /\ step s3 (Par 0) = Ok (mk [3;3;3;3] [1;2;1;4], RN 3).
@@ -63,10 +72,10 @@ Proof.
 Qed.
 
 (** a history as a list, with a reset in the middle: the ghost state restarts at the reset *)
-Example ex_run : run (new 4) [Un 0 1; Un 2 3; Reset 3; Un 2 0; Check 0 2; Size 1]
+Example ex_run : run (new 4) [Un 0 1; Un 2 3; Reset 3%N; Un 2 0; Check 0 2; Size 1]
                  = Ok (mk [0;1;0] [2;1;1], [RB true; RB true; RU; RB true; RB true; RN 1]).
 Proof. reflexivity. Qed.
-Example ex_ghost_run : ghost_run 4 [] [Un 0 1; Un 2 3; Reset 3; Un 2 0; Check 0 2; Size 1] = (3, [(2,0)]).
+Example ex_ghost_run : ghost_run 4 [] [Un 0 1; Un 2 3; Reset 3%N; Un 2 0; Check 0 2; Size 1] = (3, [(2,0)]).
 Proof. reflexivity. Qed.
 
 (** a correspondence case on which [model_check] holds (hypothesis of c05_model_check_implies_spec_check) *)
@@ -93,3 +102,27 @@ Example ex_case_cross_check :
   let c := mkcase d2 [NReset d0 d2] [(OX, Some ([d0;d1],[d1;d1]))] [([d0;d1],[d1;d1])] in
   model_check c = false /\ spec_check c = false.
 Proof. vm_compute. split; reflexivity. Qed.
+
+(** a refused reset in the middle of a history: it must panic, the sizes and parents stay what the unions made them
+    (first case: model and specification accept); a reset that has already rewritten the parents when it panics
+    (second case: the arrays shown after the panic are p = identity, sz = old) is rejected by both *)
+Example ex_case_reset_refused :
+  let big := 18446744073709551615%N in
+  let c := mkcase d4 [NUn d0 d0 d1; NUn d0 d2 d3; NUn d0 d0 d2; NReset d0 big; NSize d0 d1]
+             [(OB true, Some ([d1;d1;d2;d3],[d1;d2;d1;d1])); (OB true, Some ([d1;d1;d3;d3],[d1;d2;d1;d2]));
+              (OB true, Some ([d1;d3;d3;d3],[d1;d2;d1;d4])); (OP, None); (ON d4, None)]
+             [([d1;d3;d3;d3],[d1;d2;d1;d4])] in
+  let c' := mkcase d4 [NUn d0 d0 d1; NUn d0 d2 d3; NUn d0 d0 d2; NReset d0 big; NSize d0 d1]
+             [(OB true, Some ([d1;d1;d2;d3],[d1;d2;d1;d1])); (OB true, Some ([d1;d1;d3;d3],[d1;d2;d1;d2]));
+              (OB true, Some ([d1;d3;d3;d3],[d1;d2;d1;d4])); (OP, Some ([d0;d1;d2;d3],[d1;d2;d1;d4])); (ON d2, None)]
+             [([d0;d1;d2;d3],[d1;d2;d1;d4])] in
+  model_check c = true /\ spec_check c = true /\ model_check c' = false /\ spec_check c' = false.
+Proof. vm_compute. repeat split; reflexivity. Qed.
+(** ... and a refused reset that returned is rejected *)
+Example ex_case_reset_no_panic :
+  let c := mkcase d2 [NReset d0 1152921504606846976%N] [(OU, None)] [([d0;d1],[d1;d1])] in
+  model_check c = false /\ spec_check c = false.
+Proof. vm_compute. split; reflexivity. Qed.
+Example ex_panic_state_reach : reach 4 es3 (panic_state s3 (Check 0 9)).
+Proof. exact (c05_panic_state_reachable 4 es3 s3 (Check 0 9) ex_reach). Qed.
+
